@@ -23,6 +23,11 @@ theorem C02_gen_jdumpsGuarded : Generated.jdumpsGuarded = some true := by decide
 /-- Both `jdumps` calls of `_safe_jdumps` are guarded (`safeJdumps`: the two `match jdumps … with`). -/
 theorem C02_gen_safeJdumpsGuarded : Generated.safeJdumpsGuarded = some true := by decide
 
+/-- Whether a replaced response keeps its id is decided by serialising that id on its own
+    (`safeJdumps`: `match jdumps rid with | .ok _ => rid | .error _ => none`, `Lemmas.Server.keptId`), not
+    by a test on the id's type: an id of a "primitive" type without JSON form (`bytes`) is dropped too. -/
+theorem C02_gen_safeJdumpsIdProbe : Generated.safeJdumpsIdProbe = some true := by decide
+
 /-- The handlers around the method call only build, format and log a Fault: in the model they are
     `handleCallExc` / `internalFault`, which call nothing. -/
 theorem C02_gen_handlersOnlyReport : Generated.handlersOnlyReport = some true := by decide
